@@ -645,8 +645,37 @@ def check_graph(ctx, run, A, directed, family, tier):
     if n and (small or tier == "thorough" or n <= 20):
         oracle_vec("betweenness", orc.betweenness())
 
+    # ---- local vulnerability: (E - E_i) / E with E_i the efficiency without node i -------------
+    if 3 <= n <= 10 and A.any():
+        E = orc.efficiency()
+        expv, edgeless_after = [], False
+        for i in range(n):
+            keep = [v for v in range(n) if v != i]
+            sub = np.asarray(A)[np.ix_(keep, keep)]
+            if not sub.any():
+                edgeless_after = True
+            expv.append((E - Oracle(sub, directed).efficiency()) / E)
+        st, got = call("local_vulnerability")
+        ctx.count("oracle:local_vulnerability")
+        if st == "raise":
+            ctx.fail(sig("local_vulnerability", error=got,
+                         removal_class="a-node-removal-leaves-no-link" if edgeless_after else "links-remain"),
+                     f"local_vulnerability raised {got}",
+                     replay("local_vulnerability", [str(e) for e in expv], "raise:" + got))
+        elif any(not close(x, e) for x, e in zip(fl(got), expv)):
+            ctx.fail(sig("local_vulnerability"), "local_vulnerability differs from (E - E_i)/E",
+                     replay("local_vulnerability", [str(e) for e in expv], fl(got)))
+
     if directed:
+        directed_extras(ctx, net, orc, A, sig, replay)
         return
+    # ---- unit-weight n.s.i. clustering: linked ordered pairs of N+(i) over (k+1)^2 ------------------
+    if n:
+        tri = [sum(1 for x, y in itertools.combinations(sorted(orc.N_out[i]), 2) if orc.A[x][y])
+               for i in range(n)]
+        oracle_vec("nsi_local_clustering",
+                   [Fr(2 * tri[i] + 3 * orc.deg[i] + 1, (orc.deg[i] + 1) ** 2) for i in range(n)],
+                   what="nsi_local_clustering with unit weights is not (2 T_i + 3 k_i + 1)/(k_i + 1)^2")
     # ======================= undirected only ==============================================
     # ---- clustering / transitivity ------------------------------------------------------
     got = oracle_vec("local_clustering", orc.local_clustering())
@@ -759,6 +788,41 @@ def check_graph(ctx, run, A, directed, family, tier):
         st, got = quiet(netw.nsi_local_clustering)
         run.approx(f"nsiclust {m} {enc_frs(w)}", [fl(got) if st == "ok" else None],
                    ("nsiclust", A, directed))
+
+
+def directed_extras(ctx, net, orc, A, sig, replay):
+    """measures whose docstrings do not say what happens on directed networks; compared with the
+    reading stated in design/C03.md: clustering of the undirected projection, link betweenness and
+    closeness along link directions (the convention of path_lengths / betweenness)."""
+    n = orc.n
+    U = np.maximum(np.asarray(A), np.asarray(A).T)
+    und = Oracle(U, False)
+    st, got = quiet(net.local_clustering)
+    ctx.count("oracle:directed:local_clustering")
+    exp = und.local_clustering()
+    if st == "raise" or any(not close(x, e) for x, e in zip(fl(got), exp)):
+        ctx.fail(sig("local_clustering"), "local_clustering of a directed network differs from the clustering "
+                 "of its undirected projection", replay("local_clustering", [str(e) for e in exp],
+                                                        fl(got) if st == "ok" else got))
+    if n <= 20:
+        st, LB = quiet(net.link_betweenness)
+        ctx.count("oracle:directed:link_betweenness")
+        expL = orc.link_betweenness()
+        # the method writes result[i,j] = result[j,i]; accept either orientation's value
+        if st == "raise" or any(not (close(LB[i][j], expL[i][j]) or close(LB[i][j], expL[j][i]))
+                                for i in range(n) for j in range(n)):
+            ctx.fail(sig("link_betweenness"), "link_betweenness of a directed network is not the betweenness "
+                     "of the link in either orientation",
+                     replay("link_betweenness", [[str(x) for x in r] for r in expL],
+                            np.asarray(LB).tolist() if st == "ok" else LB))
+    if n >= 2 and orc.connected():
+        st, got = quiet(net.closeness)
+        ctx.count("oracle:directed:closeness")
+        exp = [Fr(n - 1, sum(orc.d[i])) for i in range(n)]
+        if st == "raise" or any(not close(x, e) for x, e in zip(fl(got), exp)):
+            ctx.fail(sig("closeness"), "closeness of a strongly connected directed network differs from "
+                     "(N-1)/sum_j path_lengths[i,j]", replay("closeness", [str(e) for e in exp],
+                                                             fl(got) if st == "ok" else got))
 
 
 def weighted_checks(ctx, run, A, directed):
